@@ -83,6 +83,8 @@ fn gen_package(c: &mut Choices<'_>, name: &str, dir: &str, member: bool) -> Pack
 fn write_ws(root: &Path, ws: &Ws) {
     let _ = std::fs::remove_dir_all(root);
     let members: Vec<&Package> = ws.packages.iter().filter(|p| p.member && !p.dir.is_empty()).collect();
+    let excluded: Vec<String> = ws.packages.iter().filter(|p| !p.member && !p.dir.starts_with("..")).map(|p| format!("\"{}\"", p.dir)).collect();
+    let exclude_line = if excluded.is_empty() { String::new() } else { format!("exclude = [{}]\n", excluded.join(", ")) };
     for p in &ws.packages {
         let dir = if p.dir.is_empty() { root.to_path_buf() } else { root.join(&p.dir) };
         let mut m = String::new();
@@ -129,7 +131,7 @@ fn write_ws(root: &Path, ws: &Ws) {
             }
         }
         if p.dir.is_empty() && !ws.virtual_root {
-            m.push_str(&format!("\n[workspace]\nmembers = [{}]\n", members.iter().map(|x| format!("\"{}\"", x.dir)).collect::<Vec<_>>().join(", ")));
+            m.push_str(&format!("\n[workspace]\nmembers = [{}]\n{exclude_line}", members.iter().map(|x| format!("\"{}\"", x.dir)).collect::<Vec<_>>().join(", ")));
         }
         let _ = std::fs::create_dir_all(&dir);
         let _ = std::fs::write(dir.join("Cargo.toml"), m);
@@ -141,7 +143,7 @@ fn write_ws(root: &Path, ws: &Ws) {
         }
     }
     if ws.virtual_root {
-        let m = format!("[workspace]\nmembers = [{}]\n", members.iter().map(|x| format!("\"{}\"", x.dir)).collect::<Vec<_>>().join(", "));
+        let m = format!("[workspace]\nmembers = [{}]\n{exclude_line}", members.iter().map(|x| format!("\"{}\"", x.dir)).collect::<Vec<_>>().join(", "));
         let _ = std::fs::create_dir_all(root);
         let _ = std::fs::write(root.join("Cargo.toml"), m);
     }
@@ -165,7 +167,7 @@ impl Property for C18 {
         }
     }
     fn rule(&self) -> &'static str {
-        "generated workspaces (virtual or rooted, 1..4 members, lib / bin / explicit [[bin]] / example / test / bench / build-script targets, a source file shared by two targets of one package or (through `../`) of two packages, package and per-target editions incl. the default 2015, path dependencies inside the workspace and to packages outside it, transitively) x selection (current directory, -p names, --all, --manifest-path of a member spelled absolutely / relatively with `..` / with `./` / through a symlink, an unknown -p, a bad --manifest-path) x working directory (workspace root, a member's directory, a member's src/ subdirectory) x pass-through arguments, --check and --message-format; the real cargo-fmt runs with $RUSTFMT pointing at a recording stand-in whose k-th invocation fails on request; oracle (model computed from the generated manifests): the union of the files passed equals the root source files of all targets of the selected packages, every file is passed once, every invocation carries the edition of its targets and the pass-through arguments in order, cargo-fmt fails iff a stand-in invocation failed, and an unknown package or unusable manifest is an error before any invocation; non-trivial = at least two editions among the selected targets and a path dependency or explicit target; distinct by case content"
+        "generated workspaces (virtual or rooted, 1..4 members, lib / bin / explicit [[bin]] / example / test / bench / build-script targets, a source file shared by two targets of one package or (through `../`) of two packages, package and per-target editions incl. the default 2015, path dependencies inside the workspace, to packages outside it and to a package below the workspace root that workspace.exclude keeps out of the workspace, transitively) x selection (current directory, -p names, --all, --manifest-path of a member spelled absolutely / relatively with `..` / with `./` / through a symlink, an unknown -p, a bad --manifest-path) x working directory (workspace root, a member's directory, a member's src/ subdirectory) x pass-through arguments, --check and --message-format; the real cargo-fmt runs with $RUSTFMT pointing at a recording stand-in whose k-th invocation fails on request; oracle (model computed from the generated manifests): the union of the files passed equals the root source files of all targets of the selected packages, every file is passed once, every invocation carries the edition of its targets and the pass-through arguments in order, cargo-fmt fails iff a stand-in invocation failed, and an unknown package or unusable manifest is an error before any invocation; non-trivial = at least two editions among the selected targets and a path dependency or explicit target; distinct by case content"
     }
     fn assumptions(&self) -> Vec<&'static str> {
         vec![
@@ -191,6 +193,11 @@ impl Property for C18 {
         let n_out = c.below(3);
         for i in 0..n_out {
             packages.push(gen_package(c, &format!("outside{i}"), &format!("../outside{i}"), false));
+        }
+        // a package below the workspace root that is not a member (listed in workspace.exclude),
+        // reachable through a path dependency only
+        if c.chance(1, 4) {
+            packages.push(gen_package(c, "excluded0", "vendor/ex0", false));
         }
         // a source file shared by targets of two packages, reached through `../` (cargo reports
         // such paths un-normalised): it must still be passed once
